@@ -21,7 +21,8 @@ inductive ErrClass where
 /-- Abstract top frame of a captured stack. -/
 inductive StackTop where
   | thrower                 -- the innermost frame's throwing statement
-  | rethrow (fin : Bool)    -- the `throw e` of a rethrowing JS frame (JR: fin=false, JRF: fin=true)
+  | rethrow (idx : Nat)     -- the `throw e` statement in the catch block of the rethrowing JS frame with index idx
+  | creation                -- the `new Error(..)` expression that made a script-made Error object
   | empty                   -- len(stack) == 0 (captured with an idle vm)
   | other                   -- native frame, creation site of an Error object, any other JS site
   deriving DecidableEq, Repr, Inhabited
@@ -49,6 +50,8 @@ def JsKey.isGoErrorInstance : JsKey → Bool
 inductive GoErr where
   | plain (id : Nat)                          -- errors.New
   | custom (id : Nat)                         -- *CustomErr (errors.As target type)
+  | customIs (id : Nat) (target : Nat)        -- error type with a method Is(t) that answers true for the error `target`
+  | customAs (id : Nat) (gives : Nat)         -- error type with a method As(&*CustomErr) that stores the *CustomErr `gives`
   | wrap (id : Nat) (inner : GoErr)           -- fmt.Errorf("%w"):    Unwrap() error
   | join (id : Nat) (a b : GoErr)             -- errors.Join(a, b):   Unwrap() []error
   | interrupted (id : Nat)                    -- *InterruptedError, iface not an error       runtime.go:325
@@ -62,7 +65,7 @@ inductive GoErr where
 namespace GoErr
 
 def id : GoErr → Nat
-  | plain i | custom i | wrap i _ | join i _ _ | interrupted i | interruptedE i _ | stackOverflow i | runtimeErr i
+  | plain i | custom i | customIs i _ | customAs i _ | wrap i _ | join i _ _ | interrupted i | interruptedE i _ | stackOverflow i | runtimeErr i
   | wrapExc i _ _ | wrapExcGo i _ _ _ => i
 
 /-- `_, ok := e.(uncatchableException)` (runtime.go:309): the dynamic type itself carries the marker method. -/
@@ -102,11 +105,14 @@ def errIs : GoErr → Nat → Bool
   | interruptedE i f, t => i == t || errIs f t
   | wrapExcGo i k _ inner, t => i == t || (k.isGoErrorInstance && errIs inner t)
   | wrapExc i _ _, t => i == t
+  | customIs i tgt, t => i == t || tgt == t              -- `x.Is(target)` (errors.Is consults it at every chain node)
+  | customAs i _, t => i == t
   | plain i, t | custom i, t | interrupted i, t | stackOverflow i, t | runtimeErr i, t => i == t
 
 /-- `errors.As(e, &*CustomErr)`: id of the first *CustomErr in depth-first order. -/
 def errAs : GoErr → Option Nat
   | custom i => some i
+  | customAs _ g => some g                               -- `x.As(target)` stores its own *CustomErr
   | wrap _ inner => errAs inner
   | join _ a b => match errAs a with | some c => some c | none => errAs b
   | interruptedE _ f => errAs f
@@ -132,7 +138,7 @@ namespace JsVal
 
 /-- `x1.self.(*errorObject)` and its `stack` field (builtin_error.go:101 errorObject.init). -/
 def ownStack : JsVal → Option StackTop
-  | errObj _ _ => some .other
+  | errObj _ _ => some .creation
   | goError _ _ => some .empty
   | freshErr _ st => some st
   | freshGoError _ => some .other
@@ -431,6 +437,9 @@ inductive Frame where
   | jg | jgf     -- generator body (resumed after a yield) calling next; jgf: inside try/finally
   | ja           -- async function calling next in its synchronous part
   | fot          -- Runtime.ForOf whose step callback calls next, over an iterator whose return() throws
+  | jit          -- JS `for (x of it) next()` over an iterator whose return() method itself throws
+  | jy | jyf     -- generator delegating with `yield*` to a generator whose body calls next; jyf: the yield* is inside try/finally
+  | fcs          -- native FunctionCall that ignores the Callable's error (swallows it) and returns normally
   | pr           -- Promise.resolve().then(next): the rest runs as a promise job
   | jaw          -- async function: `await null; next()`: the rest runs as a promise job
   deriving DecidableEq, Repr, Inhabited
@@ -438,11 +447,13 @@ inductive Frame where
 namespace Frame
 /-- Is the function object that represents this frame a JS function (true) or a native one (false)? -/
 def isJS : Frame → Bool
-  | js _ | ct | px | dy | pr | ji | jg | jgf | ja | jaw => true     -- ct / px / dy / pr are entered through a JS shim
+  | js _ | ct | px | dy | pr | ji | jg | jgf | ja | jaw | jit | jy | jyf => true     -- ct / px / dy / pr are entered through a JS shim
   | _ => false
 /-- The frame ends the propagation of a JS exception: a catch without rethrow, or an async function (its promise
 is rejected with the value instead)'. -/
-def swallows : Frame → Bool | js k => k.swallows | ja => true | _ => false
+def swallows : Frame → Bool | js k => k.swallows | ja => true | fcs => true | _ => false
+/-- A native frame that drops the error the Callable returned — also an uncatchable one. -/
+def dropsErrors : Frame → Bool | fcs => true | _ => false
 /-- The frame replaces the exception in flight by ANOTHER exception: no frame does since fix 51964d9 (before it,
 Runtime.ForOf called the iterator's return() unguarded — see `fotPrefix`). -/
 def replaces : Frame → Bool | _ => false
@@ -480,14 +491,14 @@ def jsFrame (idx : Nat) (k : JsKind) : Flow → Flow × List LogE
         | _ => .panic (.exc e) o, [⟨idx, .fin⟩])
     | .caught e rest =>
       if k.rethrows then
-        let e1 := throwExec (.rethrow k.hasFinally) e.val            -- `throw e` inside the catch block
-        match handleThrow (.rethrow k.hasFinally) (.exc e1) rest with
+        let e1 := throwExec (.rethrow idx) e.val            -- `throw e` inside the catch block
+        match handleThrow (.rethrow idx) (.exc e1) rest with
         | .toFinally e2 rest2 =>
-          (match handleThrow (.rethrow k.hasFinally) (.exc e2) rest2 with
-            | .returned e3 _ => .panic (.exc e3) (.rethrow k.hasFinally)
-            | _ => .panic (.exc e2) (.rethrow k.hasFinally), [⟨idx, .caught e.val⟩, ⟨idx, .fin⟩])
-        | .returned e2 _ => (.panic (.exc e2) (.rethrow k.hasFinally), [⟨idx, .caught e.val⟩])
-        | _ => (.panic (.exc e1) (.rethrow k.hasFinally), [⟨idx, .caught e.val⟩])
+          (match handleThrow (.rethrow idx) (.exc e2) rest2 with
+            | .returned e3 _ => .panic (.exc e3) (.rethrow idx)
+            | _ => .panic (.exc e2) (.rethrow idx), [⟨idx, .caught e.val⟩, ⟨idx, .fin⟩])
+        | .returned e2 _ => (.panic (.exc e2) (.rethrow idx), [⟨idx, .caught e.val⟩])
+        | _ => (.panic (.exc e1) (.rethrow idx), [⟨idx, .caught e.val⟩])
       else
         (.normal, ⟨idx, .caught e.val⟩ :: (if k.hasFinally then [⟨idx, .fin⟩] else []))
 
@@ -536,6 +547,27 @@ def applyFrame (idx : Nat) (f : Frame) (cjs : Bool) (fl : Flow) : Flow × List L
       | .ok => (.normal, [])                                             -- next iteration: the iterator is exhausted
       | .ex e => (.panic (.exc e) .other, [⟨idx, .iterReturn⟩])          -- return() runs guarded (fix 51964d9): the original wins
       | .panic x o => (.panic x o, []))                                  -- vm.try re-panics what is not a JS exception
+  | .jit =>                                                              -- like ji; the exception thrown by return() during unwinding
+    (match fl with                                                       --   is discarded: `_ = vm._restoreStacks(..)` (vm.go handleThrow)
+      | .normal => (.normal, [])
+      | .panic x o =>
+        match handleThrow o x [.marker] with
+        | .returned e _ => (.panic (.exc e) o, [⟨idx, .iterReturn⟩])
+        | _ => (.panic x o, []))
+  | .jy =>                                                               -- generatorObject.next → tryCallDelegated (func.go): runtime.try around
+    (match vmTry (jsCall fl) with                                        --   the inner generator's next(); ex → gen.nextThrow(ex) resumes the outer
+      | .ok => (.normal, [])                                             --   generator by throwing ex at the yield*; its step panics ex
+      | .ex e => (jsCall (.panic (.exc e) .other), [])
+      | .panic x o => (.panic x o, []))
+  | .jyf =>
+    (match vmTry (jsCall fl) with
+      | .ok => ((jsFrame idx .jf .normal).1, (jsFrame idx .jf .normal).2)
+      | .ex e => (jsCall (jsFrame idx .jf (.panic (.exc e) .other)).1, (jsFrame idx .jf (.panic (.exc e) .other)).2)
+      | .panic x o => (.panic x o, []))
+  | .fcs =>                                                              -- `_, _ = fn(undefined)`: the error value is dropped
+    (match callable cjs fl with
+      | .panic x o => (.panic x o, [])
+      | _ => (.normal, []))
   | .pr => (fl, [])                                                      -- never applied (segments are split at pr / jaw)
   | .jaw => (fl, [])
 
